@@ -54,8 +54,14 @@ def gen(rng, n):
         nodes += [['f', parent + '/sibling', 'sib'], ['f', root + '/other1', 'o1'], ['f', lay.home + '/other2', 'o2']]
         tdopt = []
         putenv = {}
-        if rng.random() < 0.15:
+        r_td = rng.random()
+        if r_td < 0.15:
             tdopt = ['--trash-dir', root + '/mytd']
+        elif r_td < 0.27:
+            # the user's trash directory named through a symbolic link that lives on another volume than the directory itself
+            other = rng.choice([x for x in [lay.home] + lay.vols if x != root] or [lay.home])
+            nodes += [['d', root + '/.mytd', 0o700], ['l', other + '/tdlink', root + '/.mytd']]
+            tdopt = ['--trash-dir', other + '/tdlink']
         elif where == 'vol' and rng.random() < 0.3:
             # no usable trash directory on the entry's own volume: the home fallback moves it ACROSS file systems (copy + delete),
             # and the restore moves it back the same way: content, modes and mtimes must survive both copies
